@@ -34,7 +34,8 @@ theorem entry_guard_monotone {p : Prog} {B pc ok k : Nat} {m m' : Mem} (hp : Pla
 /-! ## On the verified core: a run that fits behaves identically at every larger stack size -/
 
 /-- **C18 (stack size) on the core**: if a core program runs to completion with stack size `S`
-(the stack holds the entry frame and every callee frame: the source run is conclusive), then at
+(the stack holds the entry frame and every callee frame: the source run is conclusive and not
+a stack overflow), then at
 every larger stack size `S'` the emitted machine performs exactly the same events — for every
 program, argument vector, word size and build mode. -/
 theorem core_larger_stack_same (w S S' : Nat) (ck : Bool) (hS : S ≤ S') (args : List Int) (pr : Core.CProg) (hw : 2 ≤ w)
@@ -43,7 +44,7 @@ theorem core_larger_stack_same (w S S' : Nat) (ck : Bool) (hS : S ≤ S') (args 
     (hwf : Core.wfProg pr = true) (hlen : args.length = pr.params.length)
     (fuel : Nat) (env' : Core.Env) (tr : List Ev) (res : Core.Res)
     (hex : Core.srcRun ⟨w, S, ck⟩ fuel args pr = some (env', tr, res))
-    (hck : res = .div0 → ck = true)
+    (hck : res = .div0 → ck = true) (hno : res ≠ .ovf)
     (hroom : Core.pkS w (Core.entryOff w pr.params) pr.body ≤ S * w + args.length * w + w) :
     ∃ m m',
       Exec (sphinx (Core.coreProg ⟨w, S, ck⟩ pr)) (Core.coreInit ⟨w, S, ck⟩ args pr) (tr ++ Core.terminalEvs res)
@@ -52,9 +53,9 @@ theorem core_larger_stack_same (w S S' : Nat) (ck : Bool) (hS : S ≤ S') (args 
         ⟨tntPc (Core.progLen ck pr), m'⟩ := by
   have hSw := Nat.mul_le_mul_right w hS
   obtain ⟨m, h, _⟩ := Core.core_correct ⟨w, S, ck⟩ args pr hw hB
-    (by show 5 * w + S * w + args.length * w + w < 256 ^ w; omega) hwf hlen fuel env' tr res hex hck hroom
+    (by show 5 * w + S * w + args.length * w + w < 256 ^ w; omega) hwf hlen fuel env' tr res hex (fun h => h.elim hck (fun h => absurd h hno)) (fun h => absurd h hno) hroom
   obtain ⟨m', h', _⟩ := Core.core_correct ⟨w, S', ck⟩ args pr hw hB hSE hwf hlen fuel env' tr res
-    (Core.srcRun_stack_mono w S S' ck hS fuel args pr _ hex) hck
+    (Core.srcRun_stack_mono w S S' ck hS fuel args pr _ _ _ hex hno) (fun h => h.elim hck (fun h => absurd h hno)) (fun h => absurd h hno)
     (by show Core.pkS w (Core.entryOff w pr.params) pr.body ≤ S' * w + args.length * w + w; omega)
   exact ⟨m, m', h, h'⟩
 
